@@ -31,10 +31,96 @@ type grEvent struct {
 }
 
 type grRoom struct {
-	Version string
-	Events  []*grEvent
-	RoomID  string
-	byID    map[string]int
+	Version   string
+	Events    []*grEvent
+	RoomID    string
+	byID      map[string]int
+	mergePrev []string    // extra prev_events for the event being added (merges)
+	pdus      map[int]PDU // parsed events (for merges, which need the reference resolver)
+	Merges    int
+}
+
+func (r *grRoom) pdu(i int) PDU {
+	if r.pdus == nil {
+		r.pdus = map[int]PDU{}
+	}
+	if p, ok := r.pdus[i]; ok {
+		return p
+	}
+	p, err := raParsePDU(r.Version, r.Events[i].Tree)
+	if err != nil {
+		return nil
+	}
+	r.pdus[i] = p
+	return p
+}
+
+// mergedState resolves the states after events a and b with the REFERENCE resolver (the merge
+// event's state-before); nil if something does not parse.
+func (r *grRoom) mergedState(a, b int) map[string]int {
+	var all []PDU
+	rejected := map[string]bool{}
+	for _, e := range r.Events {
+		p := r.pdu(e.Idx)
+		if p == nil {
+			return nil
+		}
+		all = append(all, p)
+		if e.Rejected {
+			rejected[e.ID] = true
+		}
+	}
+	set := func(i int) []PDU {
+		var out []PDU
+		for _, idx := range r.stateSet(i) {
+			out = append(out, r.pdu(idx))
+		}
+		return out
+	}
+	sets := [][]PDU{set(a), set(b)}
+	auth := all
+	if vtraits[r.Version].StateRes == 1 {
+		auth = rrUnconflictedAuthV1(sets)
+	}
+	res, _ := rres(r.Version, sets, auth, rejected)
+	out := map[string]int{}
+	for _, e := range res {
+		if e.StateKey() == nil {
+			continue
+		}
+		idx, ok := r.byID[e.EventID()]
+		if !ok {
+			return nil
+		}
+		out[grKey(e.Type(), *e.StateKey())] = idx
+	}
+	return out
+}
+
+// addMerge appends an event whose prev_events are a and b (a merge of two forks).
+func (r *grRoom) addMerge(a, b int, typ, sender string, stateKey *string, content jv, idHint int) *grEvent {
+	st := r.mergedState(a, b)
+	if st == nil {
+		return nil
+	}
+	// temporarily present the merged state as the state of a synthetic parent: reuse add() by
+	// swapping the parent's state, then fix prev_events / depth / ts
+	pa, pb := r.Events[a], r.Events[b]
+	saved := pa.State
+	savedDepth, savedTS := pa.Depth, pa.TS
+	pa.State = st
+	if pb.Depth > pa.Depth {
+		pa.Depth = pb.Depth
+	}
+	if pb.TS > pa.TS {
+		pa.TS = pb.TS
+	}
+	r.mergePrev = []string{pb.ID}
+	e := r.add(a, typ, sender, stateKey, content, 1, idHint)
+	r.mergePrev = nil
+	pa.State, pa.Depth, pa.TS = saved, savedDepth, savedTS
+	r.Merges++
+	return e
 }
 
 func grKey(typ, sk string) string { return typ + "\x00" + sk }
@@ -89,7 +175,7 @@ func (r *grRoom) add(parent int, typ, sender string, stateKey *string, content j
 		p := r.Events[parent]
 		parentState = p.State
 		e.Depth, e.TS = p.Depth+1, p.TS+tsDelta
-		spec.Prev = []string{p.ID}
+		spec.Prev = append([]string{p.ID}, r.mergePrev...)
 	} else {
 		parentState = map[string]int{}
 		e.Depth, e.TS = 1, 1000
@@ -149,7 +235,17 @@ func (r *grRoom) memOf(state map[string]int, u string) string {
 }
 
 // grGen draws a room history.
+// grGen draws a history that is a tree by prev_events (no merge events).
 func grGen(t *rapid.T, version string, minEvents, maxEvents int) *grRoom {
+	return grGenWith(t, version, minEvents, maxEvents, grOpts{})
+}
+
+type grOpts struct {
+	Merges  bool // allow merge events (state-before by the reference resolver)
+	PLHeavy bool // mostly power-level changes and plain state events, many forks, everyone joined
+}
+
+func grGenWith(t *rapid.T, version string, minEvents, maxEvents int, opts grOpts) *grRoom {
 	tr := vtraits[version]
 	r := &grRoom{Version: version, RoomID: "!room:a.example"}
 	cc := jobj("room_version", jstr(version))
@@ -173,12 +269,21 @@ func grGen(t *rapid.T, version string, minEvents, maxEvents int) *grRoom {
 		r.add(len(r.Events)-1, "m.room.power_levels", grUsers[0], raSK(""), jobj("users", users, "users_default", jnum(0), "events_default", jnum(0), "state_default", jnum(int64(rapid.SampledFrom([]int{0, 50}).Draw(t, "sd"))), "ban", jnum(50), "kick", jnum(50), "invite", jnum(0)), 1, 0)
 	}
 	r.add(len(r.Events)-1, "m.room.join_rules", grUsers[0], raSK(""), jobj("join_rule", jstr(rapid.SampledFrom([]string{"public", "public", "invite", "knock", "restricted"}).Draw(t, "jr0"))), 1, 0)
+	if opts.PLHeavy {
+		for _, u := range grUsers[1:] {
+			r.add(len(r.Events)-1, "m.room.member", u, raSK(u), jobj("membership", jstr("join")), 1, 0)
+		}
+	}
 	n := rapid.IntRange(minEvents, maxEvents).Draw(t, "nEvents")
 	tries := 0
 	for len(r.Events) < n && tries < 4*n {
 		tries++
 		parent := len(r.Events) - 1
-		if rapid.IntRange(0, 9).Draw(t, "fork") < 3 {
+		forkBelow := 3
+		if opts.PLHeavy {
+			forkBelow = 5
+		}
+		if rapid.IntRange(0, 9).Draw(t, "fork") < forkBelow {
 			parent = rapid.IntRange(1, len(r.Events)-1).Draw(t, "parent")
 		}
 		st := r.Events[parent].State
@@ -189,7 +294,19 @@ func grGen(t *rapid.T, version string, minEvents, maxEvents int) *grRoom {
 		var typ string
 		var sk *string
 		var content jv
-		switch rapid.IntRange(0, 13).Draw(t, "action") {
+		action := rapid.IntRange(0, 13).Draw(t, "action")
+		if opts.PLHeavy {
+			// 0-4 -> power levels, 5-9 -> topic / custom state, else as drawn
+			switch h := rapid.IntRange(0, 11).Draw(t, "plHeavy"); {
+			case h <= 4:
+				action = 8
+			case h <= 7:
+				action = 11
+			case h <= 9:
+				action = 13
+			}
+		}
+		switch action {
 		case 0, 1, 2:
 			typ, sk, content = "m.room.member", raSK(actor), jobj("membership", jstr("join"))
 			if r.jrOf(st) == "restricted" && rapid.Bool().Draw(t, "via") {
@@ -232,11 +349,24 @@ func grGen(t *rapid.T, version string, minEvents, maxEvents int) *grRoom {
 		default:
 			typ, sk, content = "org.example.state", raSK(rapid.SampledFrom([]string{"", "k1", actor}).Draw(t, "csk")), jobj("v", jnum(int64(rapid.IntRange(0, 9).Draw(t, "cv"))))
 		}
-		e := r.add(parent, typ, actor, sk, content, tsDelta, idHint)
+		var e *grEvent
+		if leaves := r.leaves(); opts.Merges && len(leaves) >= 2 && rapid.IntRange(0, 9).Draw(t, "merge") == 0 {
+			// merge two fork tips: the event's state-before is the reference resolution of both
+			i := rapid.IntRange(0, len(leaves)-1).Draw(t, "mergeA")
+			j := rapid.IntRange(0, len(leaves)-2).Draw(t, "mergeB")
+			if j >= i {
+				j++
+			}
+			e = r.addMerge(leaves[i], leaves[j], typ, actor, sk, content, idHint)
+		}
+		if e == nil {
+			e = r.add(parent, typ, actor, sk, content, tsDelta, idHint)
+		}
 		if e.Rejected && rapid.IntRange(0, 3).Draw(t, "keepRejected") > 0 {
 			// drop most rejected events so that histories stay mostly valid
 			r.Events = r.Events[:len(r.Events)-1]
 			delete(r.byID, e.ID)
+			delete(r.pdus, e.Idx)
 		}
 	}
 	return r
@@ -286,7 +416,8 @@ type grCase struct {
 }
 
 func grGenCase(t *rapid.T, version string, minEvents, maxEvents int) grCase {
-	r := grGen(t, version, minEvents, maxEvents)
+	opts := grOpts{Merges: rapid.IntRange(0, 2).Draw(t, "allowMerges") > 0, PLHeavy: rapid.IntRange(0, 2).Draw(t, "plHeavyMode") == 0}
+	r := grGenWith(t, version, minEvents, maxEvents, opts)
 	c := grCase{Version: version}
 	for _, e := range r.Events {
 		c.Events = append(c.Events, vfBytes(jplain(e.Tree)))
